@@ -236,7 +236,7 @@ func runC08(c *core.Ctx) {
 		c.Fail("C08.R1", "instance-floor", 0, sprintf("only %d guarded accesses found in ocimem", nAcc))
 	}
 	c08Atomic(c, la)
-	c08AllOrNothing(c, la)
+	allOrNothing(c, "C08.R2", la.fns)
 	c08Seal(c, la)
 	c08LockOrder(c, la)
 }
@@ -428,9 +428,9 @@ func c08LockOrder(c *core.Ctx, la *lockAnalysis) {
 // manifests, blobs) has been mutated no failure return is reachable: a
 // failed operation leaves the content state untouched (otherwise a rejected
 // tagged push can leave a tag pointing at a manifest that was never stored).
-func c08AllOrNothing(c *core.Ctx, la *lockAnalysis) {
+func allOrNothing(c *core.Ctx, rule string, fns []*ssa.Function) {
 	n := 0
-	for _, fn := range la.fns {
+	for _, fn := range fns {
 		if isInstance(fn) {
 			continue
 		}
@@ -466,14 +466,14 @@ func c08AllOrNothing(c *core.Ctx, la *lockAnalysis) {
 				}
 				at, reach := facts.ReachesWithout(in, failing, nil, nil)
 				if reach {
-					c.Fail("C08.R2", facts.FuncName(fn)+"/all-or-nothing/"+fld, in.Pos(), "the "+fld+" map is mutated and a failure return is still reachable afterwards ("+c.P.Pos(at.Pos())+"): a rejected operation leaves a partial update behind (e.g. a tag bound to a manifest that was never stored, so a tag whose previous manifest still exists is reported missing)")
+					c.Fail(rule, facts.FuncName(fn)+"/all-or-nothing/"+fld, in.Pos(), "the "+fld+" map is mutated and a failure return is still reachable afterwards ("+c.P.Pos(at.Pos())+"): a rejected operation leaves a partial update behind (e.g. a tag bound to a manifest that was never stored, so a tag whose previous manifest still exists is reported missing)")
 				} else {
-					c.OK("C08.R2", facts.FuncName(fn)+"/all-or-nothing/"+fld, in.Pos(), "no failure return reachable after the mutation")
+					c.OK(rule, facts.FuncName(fn)+"/all-or-nothing/"+fld, in.Pos(), "no failure return reachable after the mutation")
 				}
 			}
 		}
 	}
 	if n < 4 {
-		c.Fail("C08.R2", "all-or-nothing/instance-floor", 0, sprintf("only %d content-map mutations found in ocimem", n))
+		c.Fail(rule, "all-or-nothing/instance-floor", 0, sprintf("only %d content-map mutations found in ocimem", n))
 	}
 }
